@@ -33,6 +33,9 @@ ASSUMPTIONS = [
     "library's body position (validated by C18), the angle formulas are the oracle's",
     "bplane: S not within 1e-3 rad of the frame's z axis",
     "multi-revolution and hyperbolic Lambert transfers are outside the quantifier",
+    "bplane, sso (J2 drift) and beta: in half of the cases the orbit object has a past - created with another semi-major "
+    "axis or velocity, consulted through .infos (n, kep, energy, ...), copied, then set in place to the final numbers "
+    "(obj.a = ..., obj[3:] = ...); the oracles are evaluated on the final numbers only",
 ]
 LEVEL_TEXT = "exploration"
 LEVEL_NOTE = ("Randomised search over the stated input classes; Walker triples with p, t/p <= 12 are "
@@ -97,6 +100,70 @@ def finite(name, arr):
     if not np.all(np.isfinite(a)):
         raise Violation(f"{name}-nonfinite", f"{name} = {a.tolist()}")
     return a
+
+
+# ------------------------------------------------------------------ objects with a past
+
+READS = ["n", "kep", "energy", "hyperbolic", "r", "v", "type", "rp"]
+
+
+@st.composite
+def detours(draw):
+    """How the orbit object handed to a helper came to hold its numbers: fresh (half of the cases), or built
+    with another energy, consulted through .infos, copied, then changed in place to the final numbers."""
+    if draw(st.booleans()):
+        return dict(mode="fresh")
+    return dict(mode=draw(st.sampled_from(["set_a", "set_a", "dv"])), factor=draw(st.sampled_from([0.5, 0.8, 1.25, 2.0])),
+                dv=[draw(go.uniform(-0.05, 0.05)) for _ in range(3)],
+                reads=draw(st.lists(st.sampled_from(READS), min_size=0 if draw(st.integers(0, 4)) == 0 else 1, max_size=3)),
+                copy_after_read=draw(st.booleans()), copy_after_change=draw(st.booleans()))
+
+
+def with_past(detour, kep, date, frame, mu, cls_=None, propagator=None, kep_form="keplerian"):
+    """A StateVector / Orbit holding exactly the elements `kep` (in form `kep_form`), reached through `detour`.
+
+    set_a: created with semi-major axis x factor, then obj.a = a;  dv: created (cartesian) with another velocity,
+    then obj[3:] = final velocity.  Returns the object in form `kep_form` (set_a) or cartesian (dv)."""
+    from beyond.orbits import Orbit, StateVector
+
+    def make(coords, form):
+        if propagator is None:
+            return StateVector(coords, date, form, frame)
+        return Orbit(coords, date, form, frame, propagator)
+
+    mode = detour["mode"]
+    if mode == "fresh":
+        return make(list(kep), kep_form)
+    if mode == "set_a":
+        first = list(kep)
+        first[0] = kep[0] * detour["factor"]
+        obj = make(first, kep_form)
+    else:
+        final = np.asarray(make(list(kep), kep_form).copy(form="cartesian").base, float)
+        vn = float(np.linalg.norm(final[3:]))
+        first = final.copy()
+        first[3:] = final[3:] * (1 + np.asarray(detour["dv"], float))
+        obj = make(list(first), "cartesian")
+    for nm in detour["reads"]:
+        getattr(obj.infos, nm)          # derived quantities consulted before the change
+    if detour["copy_after_read"]:
+        obj = obj.copy()
+    if mode == "set_a":
+        obj.a = kep[0]
+    else:
+        obj[3:] = final[3:]
+    if detour["copy_after_change"]:
+        obj = obj.copy()
+    return obj
+
+
+def past_classes(detour):
+    if detour["mode"] == "fresh":
+        return ["past:fresh"]
+    out = [f"past:{detour['mode']}", "past:infos-read" if detour["reads"] else "past:no-read"]
+    if detour["copy_after_read"] or detour["copy_after_change"]:
+        out.append("past:copied")
+    return out
 
 
 # ------------------------------------------------------------------ Lambert
@@ -263,7 +330,8 @@ def sso_case(draw):
     # u places a between a lower bound and the largest semi-major axis that still has a solution
     # (cos i = -1); phys: lower bound = perigee 150 km above the surface when such solutions exist
     return dict(e=e, u=draw(fu(0.0, 1.0)), phys=draw(st.integers(0, 9)) < 7, dt=draw(fu(3600.0, 20 * 86400.0)),
-                raan=draw(fu(0, TWO_PI - 1e-9)), argp=draw(fu(0, TWO_PI - 1e-9)), M=draw(fu(0, TWO_PI - 1e-9)))
+                raan=draw(fu(0, TWO_PI - 1e-9)), argp=draw(fu(0, TWO_PI - 1e-9)), M=draw(fu(0, TWO_PI - 1e-9)),
+                past=draw(detours()))
 
 
 def check_sso(case):
@@ -296,7 +364,12 @@ def check_sso(case):
                         f"{rate * SIDEREAL_YEAR / TWO_PI:.6f} turn per year")
     # ... also as propagated by the J2 model of the library
     d0 = Date(2020, 3, 1)
-    orb = Orbit([a, e, i, case["raan"], case["argp"], case["M"]], d0, "keplerian_mean", "EME2000", "J2")
+    # (the orbit may have been retargeted: created with another semi-major axis, consulted, then given a = sso(...))
+    past = case.get("past", dict(mode="fresh"))
+    if past["mode"] == "dv" and e == 0.0:
+        past = dict(past, mode="set_a")      # a circular orbit has no cartesian detour back to exactly e = 0
+    orb = with_past(past, [a, e, i, case["raan"], case["argp"], case["M"]], d0, "EME2000", Earth.mu,
+                    propagator="J2", kep_form="keplerian_mean")
     end = orb.propagate(d0 + timedelta(seconds=case["dt"]))
     el = tb.cart2elements(np.asarray(end.base, float), Earth.mu)
     drift = tb.angdiff(el["raan"], case["raan"]) / case["dt"]
@@ -345,7 +418,7 @@ def check_sso(case):
         cls.append("perigee-below-surface")
     if i > math.radians(150):
         cls.append("i>150deg")
-    return dict(nt=True, cls=cls, ratio=max(parts.values()), parts=parts)
+    return dict(nt=True, cls=cls + past_classes(past), ratio=max(parts.values()), parts=parts)
 
 
 # ------------------------------------------------------------------ LTAN <-> RAAN
@@ -515,7 +588,8 @@ def beta_case(draw):
     el = draw(go.elements(elliptic=not hyp, hyperbolic=hyp))
     ref = draw(st.sampled_from(["Sun", "Sun", "Moon", "orbit", "orbit", "aligned"]))
     case = dict(el=el, ref=ref, t=draw(iu(0, 30 * 365 * 86400 * 10**6)),
-                form=draw(st.sampled_from(["cartesian", "keplerian", "equinoctial"])), frame="EME2000")
+                form=draw(st.sampled_from(["cartesian", "keplerian", "equinoctial"])), frame="EME2000",
+                past=draw(detours()))
     if ref in ("Sun", "Moon"):
         case["frame"] = draw(st.sampled_from(BETA_FRAMES))
     elif ref == "orbit":
@@ -538,7 +612,13 @@ def check_beta(case):
     el = case["el"]
     cart = tb.kep2cart(el["a"], el["e"], el["i"], el["raan"], el["argp"], el["nu"], mu)
     date = mkdate(case["t"])
-    orb = StateVector(cart, date, "cartesian", case["frame"]).copy(form=case["form"])
+    past = case.get("past", dict(mode="fresh"))
+    if past["mode"] == "fresh":
+        orb = StateVector(cart, date, "cartesian", case["frame"]).copy(form=case["form"])
+    else:
+        orb = with_past(past, [el["a"], el["e"], el["i"], el["raan"], el["argp"], el["nu"]], date, case["frame"], mu)
+        if orb.form.name != case["form"]:
+            orb = orb.copy(form=case["form"])
     h = np.cross(cart[:3], cart[3:])
     hhat = unit(h)
     ref = case["ref"]
@@ -577,7 +657,7 @@ def check_beta(case):
         raise Violation("beta-range", f"beta = {b}")
     k = 1 / (1 - el["e"]) if el["e"] < 1 else math.cosh(el["anom"]) ** 2
     # asin loses eps / cos(beta) near the poles (at most sqrt(2 eps)); form conversions lose eps * kappa
-    eps = 1e-13 * (1 + (k if case["form"] != "cartesian" else 0))
+    eps = 1e-13 * (1 + (k if (case["form"] != "cartesian" or past["mode"] != "fresh") else 0))
     tol = 1e-9 + min(math.sqrt(2 * eps), eps / max(math.cos(want), 1e-300))
     if ref == "orbit":
         tol += 1e-9 / (1 - case["ref_el"]["e"])  # the library's own Kepler propagation of the other spacecraft
@@ -590,7 +670,7 @@ def check_beta(case):
         cls.append("|beta|>89.9deg")
     if el["e"] > 1:
         cls.append("hyperbolic")
-    return dict(nt=True, cls=cls, ratio=err / tol, parts={ref: err / tol})
+    return dict(nt=True, cls=cls + past_classes(past), ratio=err / tol, parts={ref: err / tol})
 
 
 # ------------------------------------------------------------------ B-plane
@@ -606,7 +686,8 @@ def bplane_case(draw):
         el["a"] = el["a"] * (1 - el["e"]) / (1 - e)
         el["e"] = e
         el["nu"] = tb.H2nu(el["anom"], e)
-    return dict(el=el, form=draw(st.sampled_from(["cartesian", "cartesian", "keplerian", "equinoctial"])))
+    return dict(el=el, form=draw(st.sampled_from(["cartesian", "cartesian", "keplerian", "equinoctial"])),
+                past=draw(detours()))
 
 
 def check_bplane(case):
@@ -639,7 +720,14 @@ def check_bplane(case):
     if np.linalg.norm(lim - B_ref) > 1e-4 * b:
         raise RuntimeError("oracle: B vector is not the asymptote offset")
 
-    sv = StateVector(cart, Date(2020, 1, 1), "cartesian", frame_for(el["body"])).copy(form=case["form"])
+    past = case.get("past", dict(mode="fresh"))
+    if past["mode"] == "fresh":
+        sv = StateVector(cart, Date(2020, 1, 1), "cartesian", frame_for(el["body"])).copy(form=case["form"])
+    else:
+        # same numbers, but the object has been consulted (.infos) and changed in place before (C15: value semantics)
+        sv = with_past(past, [a, e, el["i"], el["raan"], el["argp"], el["nu"]], Date(2020, 1, 1), frame_for(el["body"]), mu)
+        if sv.form.name != case["form"]:
+            sv = sv.copy(form=case["form"])
     before = np.array(sv.base, float)
     with np.errstate(all="ignore"):
         bp = bplane(sv)
@@ -655,7 +743,7 @@ def check_bplane(case):
     # conditioning: the state far out on the branch determines e-vector and S with cosh(H) loss
     k = math.cosh(el["anom"]) * (1 + 1 / (e - 1))
     tol = 1e-12 * k + 1e-10
-    if case["form"] != "cartesian":
+    if case["form"] != "cartesian" or past["mode"] != "fresh":
         # the library's own form conversion comes first (C01: 1e-11 / |1-e| * cosh^2 H / sin i)
         tol += 1e-11 * math.cosh(el["anom"]) ** 2 / (e - 1) / math.sin(el["i"])
     worst = [0.0]
@@ -693,7 +781,7 @@ def check_bplane(case):
         cls.append("retrograde")
     if e > 3:
         cls.append("e>3")
-    return dict(nt=True, cls=cls, ratio=worst[0])
+    return dict(nt=True, cls=cls + past_classes(past), ratio=worst[0])
 
 
 FACETS = [
